@@ -280,6 +280,9 @@ class Layouts:
                 return v
             if path == "<[T]>::len" or path == "<alloc::vec::Vec<T, A>>::len":
                 return tail_len
+            r = symx.inline_call(self.F, e)  # a private helper whose result is one expression of its arguments
+            if r is not None:
+                return self.eval(r, shapes, args, tail_len)
             raise Unknown("call " + path)
         raise Unknown("node " + str(k))
 
